@@ -32,6 +32,7 @@ from pydiverse.transform._internal.errors import (
 )
 from pydiverse.transform._internal.ops import ops
 from pydiverse.transform._internal.ops.op import Ftype
+from pydiverse.transform._internal.ops.ops.markers import Marker
 from pydiverse.transform._internal.pipe.pipeable import (
     Pipeable,
     check_subquery,
@@ -1614,6 +1615,18 @@ def ast_repr(table: Table, verb_depth: int = 7, expr_depth: int = 2, *, pipe: bo
 def preprocess_arg(arg: ColExpr, table: Table, *, agg_is_window: bool = True) -> Any:
     arg = wrap_literals(arg)
     assert isinstance(arg, ColExpr | Order)
+
+    # Ordering markers are only allowed at the top of an `arrange` argument (where they
+    # have been peeled off already), not nested inside an expression.
+    for node in (arg.order_by if isinstance(arg, Order) else arg).iter_subtree_preorder():
+        if isinstance(node, ColFn) and isinstance(node.op, Marker):
+            raise TypeError(
+                f"invalid usage of `{node.op.name}` in a column expression.\n"
+                "note: This marker function can only be used in arguments to the "
+                "`arrange` verb or the `arrange=` keyword argument to window "
+                "functions. Furthermore, all markers have to be at the top of the "
+                "expression tree (i.e. cannot be nested inside a column function)."
+            )
 
     def _preprocess_expr(expr: ColExpr, eval_aligned: bool = False):
         if isinstance(expr, Col) and expr._uuid not in table._cache.cols and not eval_aligned:
